@@ -166,12 +166,20 @@ def validate_volume(b, names, datas, number):
     return None
 
 
-NAMES1 = ["a.dat", "b b.bin", "café.txt", "日本語", "clef\U0001D11E.mus", "e", "UPPER.DAT", "x.par.bak", "ü\U0001F600ß"]
+NAMES1 = ["a.dat", "b b.bin", "café.txt", "日本語", "clef\U0001D11E.mus", "e", "UPPER.DAT", "x.par.bak", "ü\U0001F600ß",
+          "tail\U0001F600", "\U0001D11E", "\U0001F600\U0001F601", "\uffff\ue000.x"]   # astral characters first, last, alone, adjacent
 SIZES1 = [0, 1, 7, 100, 16383, 16384, 20000]
 
 
 def gen_files(rng, nf, allow_big=True):
-    names = rng.sample(NAMES1, nf) if nf <= len(NAMES1) else NAMES1 + ["f%02d" % i for i in range(nf - len(NAMES1))]
+    # names rotate through the corpus so that every name is used within a few calls (the draw only permutes them)
+    k0 = getattr(gen_files, "cursor", 0)
+    if nf <= len(NAMES1):
+        names = [NAMES1[(k0 + i) % len(NAMES1)] for i in range(nf)]
+        gen_files.cursor = (k0 + nf) % len(NAMES1)
+        rng.shuffle(names)
+    else:
+        names = NAMES1 + ["f%02d" % i for i in range(nf - len(NAMES1))]
     out = []
     for n in names:
         sz = rng.choice(SIZES1 if allow_big else SIZES1[:4])
